@@ -1,22 +1,41 @@
 #!/usr/bin/env python3
-"""print the markdown table of DESIGN.md §8 from seeded/*/meta.json"""
-import glob, json, os
+"""Markdown tables of DESIGN.md §8 from seeded/*/meta.json; `--update` rewrites the block between the
+`<!-- seeded-table:begin -->` / `<!-- seeded-table:end -->` markers of DESIGN.md."""
+import glob, json, os, sys
 ROOT = os.path.dirname(os.path.dirname(os.path.abspath(__file__)))
-rows = []
+rows, rev = [], []
 for p in sorted(glob.glob(os.path.join(ROOT, "seeded", "*", "meta.json"))):
     m = json.load(open(p))
+    if m["id"].startswith("revert-"):
+        res = ", ".join(f"{c['property']}: " + ("failing input" if c["failing_input_found"] else ("no-failing-input-found" if c["exit"] == 1 else "MISSED"))
+                        for c in m.get("checks", []))
+        rev.append(f"| {m['id'][7:]} | {m['what_the_fix_repaired']} | {'yes' if m.get('suite_passes_with_revert') else 'no'} | {res} |")
+        continue
     c = m.get("check", {})
     first = ""
     if os.path.exists(os.path.join(os.path.dirname(p), "notes.md")):
         for line in open(os.path.join(os.path.dirname(p), "notes.md")):
             line = line.strip().lstrip("#").strip()
             if line:
-                first = line[:110]
+                first = line[:110].replace("|", "/")
                 break
     how = "—"
     if m.get("caught"):
         how = "failing input" if c.get("failing_input_found") else "broken tie/correspondence, no-failing-input-found"
     rows.append(f"| {m['id']} | {first} | {'yes' if m.get('confirmed') else 'NO'} | {'caught: ' + how if m.get('caught') else ('MISSED' if m.get('applies') else 'does not apply')} | {c.get('wall_s','')} |")
-print("| id | change (first line of the author's notes) | confirmed | `./check <property>` quick | s |")
-print("|---|---|---|---|---|")
-print("\n".join(rows))
+out = ["| id | change (first line of the author's notes) | confirmed | `./check <property>` quick | s |", "|---|---|---|---|---|"] + rows
+out += ["", "Reverts of the `fix:` commits (reverse patch of one commit on top of all later ones; each run against the checks of the properties",
+        "the defect belongs to; `no-failing-input-found` = reported through a broken tie/correspondence only):", "",
+        "| commit | what the fix repaired | suite passes with the revert | result per property |", "|---|---|---|---|"] + rev
+text = "\n".join(out)
+if "--update" in sys.argv:
+    p = os.path.join(ROOT, "DESIGN.md")
+    s = open(p).read()
+    b, e = "<!-- seeded-table:begin -->", "<!-- seeded-table:end -->"
+    if b in s:
+        s = s[:s.index(b) + len(b)] + "\n" + text + "\n" + s[s.index(e):]
+    else:
+        s = s.replace("@@TABLE@@", b + "\n" + text + "\n" + e)
+    open(p, "w").write(s)
+else:
+    print(text)
